@@ -60,7 +60,7 @@ end
 
 /-- unary functions: `aff:a:b` x*a+b, `divf:c:d` div_floor(c, x-d), `sum` (of a tuple / sequence of ints),
 `len` (of a sequence), `item:i` -/
-def parseF (s : String) : Option F :=
+def parseF (L : Option Nat) (s : String) : Option F :=
   match s.splitOn ":" with
   | ["aff", a, b] => do
     let a ← a.toInt?; let b ← b.toInt?
@@ -68,7 +68,15 @@ def parseF (s : String) : Option F :=
   | ["divf", c, d] => do
     let c ← c.toInt?; let d ← d.toInt?
     pure (onInt fun x => if x - d == 0 then .err else .val (.int (divFloor c (x - d))))
-  | ["sum"] => some fun | .val v => .val (.int (vsum v)) | x => x
+  -- `sum(Sequence<int>)` is library code (`include.rs:567`): `reduce` = `aggregate(0, add).last()`, a consumer
+  -- of its own: n + 1 elements against a fresh budget of search permits
+  | ["sum"] => some fun
+    | .val (.seq vs) =>
+      (match L with
+       | some l => if vs.length + 1 > l then .viol else .val (.int (vssum vs))
+       | none => .val (.int (vssum vs)))
+    | .val v => .val (.int (vsum v))
+    | x => x
   | ["len"] => some fun | .val (.seq vs) => .val (.int vs.length) | .viol => .viol | _ => .err
   | ["item", i] => do
     let i ← i.toNat?
@@ -127,29 +135,39 @@ def repeatN (g : G) : Nat → G
   | 0 => .fromArr []
   | n + 1 => (repeatN g n).mkChain g
 
-def applyTok (st : List G) (tok : String) : Option (List G) :=
+/-- the stack of generator values, and whether building them already ended in a violation -/
+def applyTok (L : Option Nat) (stv : List G × Bool) (tok : String) : Option (List G × Bool) :=
+  let st := stv.1
+  let keep (r : Option (List G)) : Option (List G × Bool) := r.map fun x => (x, stv.2)
+  match tok.splitOn ":", st with
+  -- `repeat(g, n)` runs `flatten` = `reduce(.., add)` over n copies while the value is built: n + 1 permits
+  | ["repeatn", n], g :: st => do
+    let n ← n.toNat?
+    let over := match L with | some l => decide (n + 1 > l) | none => false
+    pure (repeatN g n :: st, stv.2 || over)
+  | _, _ => keep <|
   match tok.splitOn ":", st with
   | ["arr", xs], st => do
     let vs ← if xs == "" then some [] else ints (xs.splitOn ",")
     pure (.fromArr (vs.map V.int) :: st)
   | ["count"], st => some (.fromCount none :: st)
   | ["countaff", a, b], st => do
-    let f ← parseF s!"aff:{a}:{b}"
+    let f ← parseF L s!"aff:{a}:{b}"
     pure (.fromCount (some f) :: st)
   | "succ" :: init :: f, st => do
     let i ← init.toInt?
-    let f ← parseF (":".intercalate f)
+    let f ← parseF L (":".intercalate f)
     pure (.succUntil (.val (.int i)) (fun x => some (f x)) :: st)
   | "succuntil" :: init :: c :: f, st => do
     let i ← init.toInt?
     let c ← c.toInt?
-    let f ← parseF (":".intercalate f)
+    let f ← parseF L (":".intercalate f)
     -- `successors_until(i, (x) -> if(x < c, some(f(x)), none()))`
     pure (.succUntil (.val (.int i))
       (fun x => match x with
         | .val (.int v) => if v < c then some (f x) else none
         | _ => some .err) :: st)
-  | "map" :: f, g :: st => do let f ← parseF (":".intercalate f); pure (.map g f :: st)
+  | "map" :: f, g :: st => do let f ← parseF L (":".intercalate f); pure (.map g f :: st)
   | "filter" :: p, g :: st => do let p ← parseP (":".intercalate p); pure (.filter g p :: st)
   | "takewhile" :: p, g :: st => do let p ← parseP (":".intercalate p); pure (.takeWhile g p :: st)
   | "skipuntil" :: p, g :: st => do let p ← parseP (":".intercalate p); pure (.skipUntil g p :: st)
@@ -157,7 +175,6 @@ def applyTok (st : List G) (tok : String) : Option (List G) :=
   | ["skip", n], g :: st => do let n ← n.toNat?; pure (g.skip n :: st)
   | ["add"], b :: a :: st => some (a.mkChain b :: st)
   | ["repeat"], g :: st => some (.repeat_ g :: st)
-  | ["repeatn", n], g :: st => do let n ← n.toNat?; pure (repeatN g n :: st)
   | "aggregate" :: init :: f, g :: st => do
     let i ← init.toInt?
     let f ← parseF2 (":".intercalate f)
@@ -176,13 +193,13 @@ def applyTok (st : List G) (tok : String) : Option (List G) :=
     pure (.zip parts :: st)
   -- `enumerate` (`include.rs:202`): `count(start, offset).zip(a)`
   | ["enumerate", a, b], g :: st => do
-    let f ← parseF s!"aff:{b}:{a}"
+    let f ← parseF L s!"aff:{b}:{a}"
     pure (.zip [.fromCount (some f), g] :: st)
   | _, _ => none
 
-def buildG (toks : List String) : Option G :=
-  match toks.foldlM applyTok [] with
-  | some [g] => some g
+def buildG (L : Option Nat) (toks : List String) : Option (G × Bool) :=
+  match toks.foldlM (applyTok L) ([], false) with
+  | some ([g], v) => some (g, v)
   | _ => none
 
 def showRes {α : Type} (sh : α → String) : Res α → String
@@ -218,8 +235,12 @@ def genEngine (f : String) (args : List String) : String :=
   if f == "begincall" || f == "tailiter" then (gateEngine f args).getD "bad-op" else
   match args with
   | l :: fuel :: toks =>
-    match parseLimit l, fuel.toNat?, buildG toks with
-    | some L, some fuel, some g =>
+    match parseLimit l, fuel.toNat? with
+    | some L, some fuel =>
+     match buildG L toks with
+     | none => "bad-op"
+     | some (_, true) => "viol"
+     | some (g, false) =>
       match f.splitOn ":" with
       | ["toarray"] => showRes (fun vs => "[s" ++ showVs vs ++ "]") (toArray L fuel g)
       | ["len"] => showRes (fun (n : Nat) => toString n) (len L fuel g)
@@ -233,7 +254,7 @@ def genEngine (f : String) (args : List String) : String :=
         | some n => "ok" ++ String.join ((outs L n (g.start L)).map fun x => " " ++ showItem x)
         | none => "bad-op"
       | _ => "bad-op"
-    | _, _, _ => "bad-op"
+    | _, _ => "bad-op"
   | _ => "bad-op"
 
 end XrayDriver
